@@ -83,10 +83,12 @@ Print Assumptions C16_sxhash_respects_equal.
 
 (* (7) hash tables: for EVERY history of setf-gethash / gethash / remhash / clrhash / hash-table-count /
    maphash over a pool of keys on which the table's test is an equivalence that coincides with Go's == on
-   the key representations, every observation of the Go-map model is the observation of the finite map under
-   the test, computed from the history alone: a lookup returns the value last stored under an equivalent
-   key (unless removed or cleared since), the count is the number of equivalence classes holding a value,
-   maphash enumerates exactly those classes (as a set). *)
+   the representations of the hashable keys and relates no hashable key to an unhashable one, every
+   observation of the Go-map model is the observation of the specification, computed from the history alone:
+   an operation on an unhashable key (a list) signals a type-error and changes nothing; otherwise the table is
+   the finite map under the test: a lookup returns the value last stored under an equivalent key (unless
+   removed or cleared since), the count is the number of equivalence classes holding a value, maphash
+   enumerates exactly those classes (as a set). *)
 Theorem C16_table_refines_map : forall pool tst ops,
   pool_ok pool tst = true -> forallb (op_in_range (List.length pool)) ops = true ->
   Forall2 obs_equiv (t_run pool [] ops) (s_run pool tst [] ops).
@@ -94,7 +96,7 @@ Proof. exact table_refines_map. Qed.
 Print Assumptions C16_table_refines_map.
 
 (* the guard of (7) is met by every pool of keys of the simple kinds (nil, t, fixnums, characters, strings,
-   symbols, vectors) whose references are consistent: there the table (whose reported test is always eql) is
+   symbols, vectors, lists) whose references are consistent: there the table (whose reported test is always eql) is
    a finite map under slip's eql, for every history. *)
 Theorem C16_simple_pool_ok : forall pool,
   simple_pool pool = true ->
@@ -151,12 +153,14 @@ Theorem C16_table_float_key_refuted :
   pool_coherent pool_flt (pool_test 1 pool_flt) = false /\ pool_equiv pool_flt (pool_test 1 pool_flt) = true.
 Proof. exact table_float_key_refuted. Qed.
 Print Assumptions C16_table_float_key_refuted.
-Theorem C16_table_list_key_faults_refuted :
-  t_run pool_lst [] [HPut 0 1; HGet 0] = [OFault; OFault] /\
-  s_run pool_lst (pool_test 1 pool_lst) [] [HPut 0 1; HGet 0] = [OVal 1; OGet (Some 1%Z)] /\
-  pool_hashable pool_lst = false.
-Proof. exact table_list_key_faults_refuted. Qed.
-Print Assumptions C16_table_list_key_faults_refuted.
+(* a list as key (finding C16-hash-list-key-faults, repaired): the operations signal a type-error, the table is
+   untouched, and the pool is inside the guard of (7) *)
+Theorem C16_table_list_key_refused :
+  t_run pool_lst [] ops_lst = [OTypeErr; OTypeErr; OVal 5; OTypeErr; ONum 1; OGet (Some 5%Z); OEntries [(1%nat, 5%Z)]] /\
+  s_run pool_lst (pool_test 1 pool_lst) [] ops_lst = t_run pool_lst [] ops_lst /\
+  pool_ok pool_lst (pool_test 1 pool_lst) = true.
+Proof. exact table_list_key_refused. Qed.
+Print Assumptions C16_table_list_key_refused.
 
 (* (9) the guards are inhabited by non-trivial objects and histories *)
 Theorem C16_guards_nonvacuous :
